@@ -45,6 +45,8 @@ type scen struct {
 	batch     int
 	flush     time.Duration // flush timeout of the sink's batcher (default 200ms)
 	join      bool          // a join action on field l (start ^S, continue ^C) in the pipeline
+	antispam  bool          // antispam enabled (a threshold that is never reached): Pipeline.In then consults the saved offsets itself
+	steps2    []step        // played by the environment during lifetime 2 (after the restart with the saved offsets file)
 }
 
 func line(stream, id string) string {
@@ -185,6 +187,9 @@ func startLifetime(n int) (*pipeline.Pipeline, *file.Plugin) {
 	settings := &pipeline.Settings{Decoder: "json", Capacity: 4, MaintenanceInterval: time.Hour, EventTimeout: time.Second,
 		Antispam: pipeline.AntispamSettings{Threshold: -1, MaintenanceInterval: time.Hour}, AvgEventSize: 128, StreamField: "stream",
 		Pool: pipeline.PoolTypeStd, Metric: &pipeline.MetricSettings{HoldDuration: time.Hour}}
+	if sc.antispam {
+		settings.Antispam.Threshold = 1000
+	}
 	p := pipeline.New(fmt.Sprintf("verif%d", n), settings, prometheus.NewRegistry(), vplug.FatalLogger())
 	info, err := fd.DefaultPluginRegistry.Get(pipeline.PluginKindInput, "file")
 	if err != nil {
@@ -308,7 +313,21 @@ func body2() {
 		apply(sc.steps[w.nextStep], nil) // appended / rotated while down
 		w.nextStep++
 	}
-	_, _ = startLifetime(2)
+	_, plug2 := startLifetime(2)
+	if len(sc.steps2) > 0 {
+		played := 0
+		vsched.GoNamed("env2", func() {
+			for _, s := range sc.steps2 {
+				if s.pause > 0 {
+					vsched.Sleep(s.pause)
+				}
+				vsched.Point("env:" + s.op)
+				apply(s, plug2)
+				played++
+			}
+		})
+		vsched.WaitUntil("second-lifetime history played", func() bool { return played == len(sc.steps2) })
+	}
 	vsched.WaitUntil("everything delivered over the two runs", func() bool { return deliveredAll() })
 	vsched.Sleep(1500 * time.Millisecond) // let pending commits / saves / maintenance run (panics would show here)
 }
@@ -346,12 +365,15 @@ func check(sc scen, x *vsched.Exec) []vexplore.Finding {
 		w.delivered[2] = c.delivered
 		w.stepsPlayed, w.offsetsAtRestart = w.nextStep, c.offsets
 		w.written, w.lineInfo = c.written, c.lineInfo
+		if c.afterTrunc != nil {
+			w.afterTrunc = c.afterTrunc
+		}
 	} else {
 		x2 = vsched.Run(vsched.Options{Horizon: 30 * time.Second, MaxSteps: 200000}, body2)
 		if life2[sc.name] == nil {
 			life2[sc.name] = map[string]life2Result{}
 		}
-		life2[sc.name][key] = life2Result{x: x2, delivered: w.delivered[2], offsets: w.offsetsAtRestart, written: w.written, lineInfo: w.lineInfo}
+		life2[sc.name][key] = life2Result{x: x2, delivered: w.delivered[2], offsets: w.offsetsAtRestart, written: w.written, lineInfo: w.lineInfo, afterTrunc: w.afterTrunc}
 		life2Runs++
 	}
 	for _, f := range vexplore.DefaultFindings(x2) {
@@ -409,6 +431,7 @@ func check(sc scen, x *vsched.Exec) []vexplore.Finding {
 }
 
 type life2Result struct {
+	afterTrunc map[string]bool
 	x         *vsched.Exec
 	delivered map[string]int
 	offsets   string
@@ -492,6 +515,14 @@ func scenarios(thorough bool) []scen {
 		// a join action holds the third line (stream x) until the stream time-out while stream y runs ahead: both streams
 		// have saved offsets and the lagging one still has an undelivered line before the other's offset
 		{name: "two-streams-join-hold", initial: map[string]string{a: line("x", "a1") + line("y", "a2") + line("x", "S3") + line("y", "a4")}, sync: true, join: true, bound: 1},
+		// one stream is the default one (lines without the stream field), the other is named; antispam enabled
+		{name: "named-and-default-stream-join-hold", initial: map[string]string{a: line("x", "a1") + line("", "a2") + line("x", "S3") + line("", "a4")}, sync: true, join: true, antispam: true, bound: 1},
+		{name: "named-and-default-stream-antispam", initial: map[string]string{a: line("", "a1") + line("x", "a2") + line("", "a3") + line("x", "a4")}, antispam: true, bound: 1},
+		// a run that started from a saved offsets file sees the file truncated and re-filled with less than it held before
+		{name: "truncate-after-restart", initial: map[string]string{a: line("", "a1") + line("", "a2") + line("", "a3") + line("", "a4")}, watch: true, truncated: true, sync: true, bound: 1, steps2: []step{
+			{op: "truncate", path: a, pause: 700 * time.Millisecond}, {op: "notify", kind: "write", path: a},
+			{op: "append", path: a, data: line("", "t1"), pause: 700 * time.Millisecond}, {op: "notify", kind: "write", path: a},
+			{op: "append", path: a, data: line("", "t2"), pause: 100 * time.Millisecond}, {op: "notify", kind: "write", path: a}}},
 		{name: "two-streams-async", initial: map[string]string{a: line("x", "a1") + line("y", "a2") + line("x", "a3") + line("y", "a4")}, bound: 1},
 		{name: "append-partial-then-complete", initial: map[string]string{a: line("", "a1")}, watch: true, bound: 1, steps: []step{
 			{op: "append", path: a, data: line("", "a2") + `{"l":"a`, pause: 100 * time.Millisecond}, {op: "notify", kind: "write", path: a},
